@@ -83,6 +83,8 @@ Inductive ev :=
 | EBlockingEnd (k : nat)
 | EPollQueue (k : nat)
 | EPollCancel (k : nat)
+| EPollEvent (k : nat)          (* the poller delivered an event carrying this key: the driver reads the storage *)
+| EPollArm (k : nat)            (* the poller is (re)armed with this key as user data *)
 | EUserPop (k : nat) (ready : bool)   (* Proactor::pop; ready = it returned the result *)
 | EUserDrop (k : nat)                 (* the user drops its handle *)
 | EUserCancel (k : nat)               (* Proactor::cancel(key): consumes the handle *)
@@ -216,6 +218,8 @@ Definition step (s0 : st) (e : ev) : option st :=
                      (ring_open s) (dropping s) (uring s) true)
     else None
   | ECancelPush k _ => with_key s k touch
+  | EPollEvent k => with_key s k touch
+  | EPollArm k => with_key s k touch
   | EBlockingDispatch k =>
     with_key s k (fun x =>
       if live x && negb (frozen x) then Some (w_frozen true (w_rc (S (rc x)) x)) else None)
